@@ -148,6 +148,9 @@ func (r *c01) obs(res string, reg, b int) string {
 	if h >= 8 {
 		r.st.Note("height>=8")
 	}
+	// the LAST query of an observation is a lookup of the operation's own key (usually a hit): whatever a lookup
+	// leaves behind then concerns a present key when the following operations run unobserved (Stream.Blind)
+	t.Get(b)
 	return sb.String()
 }
 
